@@ -304,7 +304,7 @@ func sortInts(a []int) {
 func init() {
 	register(&Check{
 		ID: "C06", Bubble: false, Run: runC06,
-		Runs:   map[string]int{"quick": 40000, "thorough": 3000000},
+		Runs:   map[string]int{"quick": 300000, "thorough": 10000000},
 		Rule:   "a case is one (faulted stream, delivery schedule) pair: a valid generated stream with 1..3 transport/peer faults (truncate at any byte with EOF or ECONNRESET, segment loss/duplication/reordering, byte corruption biased to structure, length/count replaced by a boundary integer, nesting amplification) delivered whole, byte-wise and in a seeded partition; inputs declaring lengths above 2^20 and an enumerated boundary table run one per subprocess under a 4 GiB address-space limit; distinct = distinct (stream, partition) hashes; non-trivial = at least one fault applied",
 		Real:   []string{"redis/proto parser"},
 		Stub:   []string{"transport: scripted io.Reader applying stream faults", "process isolation: prlimit --as=4GiB subprocess for allocation bombs"},
